@@ -1,7 +1,10 @@
-/- Obligations over the regenerated method-resolution table (written by harness/extract_c05.py; the text
-   is constant, the table it speaks about is not).  `dispatch_ok` is what makes every theorem of
-   Props/C05.lean, proved over `expectedDispatch`, a statement about the current class hierarchy. -/
+/- Obligations over the regenerated tables (written by harness/extract_c05.py; the text is constant, the
+   tables it speaks about are not).  `dispatch_ok` is what makes every theorem of Props/C05.lean, proved
+   over `expectedDispatch`, a statement about the current class hierarchy; `effects_ok` is what makes the
+   heap theorems (receiver purity, locality of in-place updates) statements about what the current code
+   does to its arrays. -/
 import MenpoModel.Generated.C05Dispatch
+import MenpoModel.Generated.C05Effects
 
 namespace MenpoModel.C05.GenProps
 open MenpoModel.C05
@@ -15,5 +18,14 @@ theorem dispatch_count : Generated.dispatch.length = 23 := by decide
 /-- for every class, `from_vector` is either a constructor rebuild or `copy()` + an in-place update that
 writes only into buffers the resolved `copy` makes fresh (receiver purity, see Props/C05.lean) -/
 theorem dispatch_pure : ∀ r ∈ Generated.dispatch, rowPure r = true := by decide
+
+/-- what the live objects do to their arrays (copy freshness, in-place writes, rebindings, sharing between
+receiver and result) is what the model's per-supplier tables predict through the method-resolution table -/
+theorem effects_ok : Generated.effects = expectedEffects := by decide
+
+/-- measured directly: no `from_vector` changed an array of its receiver, and every array a live
+`_from_vector_inplace` wrote in place is fresh in the live `copy()` of that class -/
+theorem effects_pure : ∀ e ∈ Generated.effects,
+    e.fvWrites = [] ∧ e.fviWrites.all (fun b => e.fresh.contains b) = true := by decide
 
 end MenpoModel.C05.GenProps
